@@ -395,6 +395,9 @@ example :
     derived.rendered = [("unit-price".toList, 2), (['x'], 1)] := by
   decide +kernel
 
+example : lastVal "unit-price".toList
+    ([⟨some "unit_price".toList, some "unit-price".toList, 2⟩].map TdField.entry) = some 2 := by decide +kernel
+
 /-- The members of ONE `parse_object_fields` call all survive the model constructor (`_validate_fields` drops
 later members with a name seen before: by `fields_distinct` there is none) and their keys are the property
 names — for names the user's `aliases` map does not rename. -/
@@ -409,6 +412,15 @@ theorem typedDict_own_members_survive (E : Env) (k : Kind) (cfg : Cfg) (props : 
   refine ⟨validateFields_id _ ?_, tdOwn_keys props fs hlen⟩
   rw [tdOwn_names props fs hlen]
   exact (fields_distinct E k cfg props excl fs ex hal h).1
+
+/-- non-vacuity: the three colliding properties `a-`, `a_`, `a+` of the example after `excludes_invariant`:
+the fold succeeds (hypothesis `h`), no alias-map hit (`hal`), three members with three different names survive -/
+example :
+    validateFields (tdOwn [(['a', '-'], true), (['a', '_'], false), (['a', '+'], false)]
+      [((['a', '_'], some ['a', '-']), true), ((['a', '_', '_', '1'], some ['a', '_']), false),
+       ((['a', '_', '_', '2'], some ['a', '+']), false)]) =
+    [⟨some ['a', '_'], some ['a', '-'], 0⟩, ⟨some ['a', '_', '_', '1'], some ['a', '_'], 0⟩,
+     ⟨some ['a', '_', '_', '2'], some ['a', '+'], 0⟩] := by decide +kernel
 
 /-- …and that is as far as it goes: members of one class declared in SEVERAL places of its schema (two inline
 objects of an `allOf`, an `allOf` item plus sibling `properties`) come from separate `parse_object_fields`
